@@ -705,7 +705,9 @@ func replayVal(c *core.Ctx, b *Built, p *valPayload) ([]finding, error) {
 				checkJSON(c, b, p, s.Dump.JSON, add)
 				jsonFromTL1 = s.Dump.JSON // reference text of the string variant for TL2-declared types
 			}
-			if !p.Orig2 && s.Dump.JSON != jsonFromTL1 {
+			// (no TL1-side JSON when the TL1 read itself was refused: that is C01's subject - e.g. its known
+			// length-sanity finding - and C04 speaks of values decoded from TL1 bytes)
+			if !p.Orig2 && jsonFromTL1 != "" && s.Dump.JSON != jsonFromTL1 {
 				add("conv", "json-differs/"+hexs(p.TL1), fmt.Sprintf("JSON after TL1 decode %s, after TL2 decode %s", jsonFromTL1, s.Dump.JSON))
 			}
 		}
